@@ -339,7 +339,22 @@ pub fn definition(src: &mut Src, cfg: &Cfg) -> Instruction {
                 2 => {
                     let args: Vec<String> = (0..1 + src.below(2)).map(|k| ["p", "q"][k].to_string()).collect();
                     let terms = (0..1 + src.below(3))
-                        .map(|_| PauliTerm::new(args.iter().map(|a| (*src.pick(&[PauliGate::I, PauliGate::X, PauliGate::Y, PauliGate::Z]), a.clone())).collect(), expr(src, &no_ph, &pvars)))
+                        .map(|_| {
+                            // the arguments of a term in signature order, reversed, or a proper
+                            // subset (a word letter belongs to the argument at its own position)
+                            let mut term_args: Vec<&String> = args.iter().collect();
+                            match src.below(4) {
+                                1 => term_args.reverse(),
+                                2 if term_args.len() > 1 => {
+                                    term_args.remove(0);
+                                }
+                                _ => {}
+                            }
+                            PauliTerm::new(
+                                term_args.into_iter().map(|a| (*src.pick(&[PauliGate::I, PauliGate::X, PauliGate::Y, PauliGate::Z]), a.clone())).collect(),
+                                expr(src, &no_ph, &pvars),
+                            )
+                        })
                         .collect();
                     (pvars.clone(), GateSpecification::PauliSum(PauliSum::new(args, terms).expect("terms use only the declared arguments")))
                 }
